@@ -86,10 +86,15 @@ def incb_case(ctx, case):
         os.makedirs(d)
     content = case['content']
     where = case['where']
-    rel = {'beside': 'blob.bin', 'sub': 'sub/blob.bin', 'incdir': 'blob.bin'}[where]
+    name = case.get('name', 'blob.bin')
+    rel = {'beside': name, 'sub': 'sub/' + name, 'incdir': name}[where]
     target = os.path.join(inc_dir if where == 'incdir' else src_dir, rel)
     with open(target, 'wb') as f:
         f.write(content)
+    if name.lower() != name:
+        for d in (os.path.dirname(target), inc_dir, src_dir):
+            with open(os.path.join(d, os.path.basename(name).lower()), 'wb') as f:
+                f.write(bytes(b ^ 0x5a for b in content))       # a case-folded twin with other bytes
     for d, payload in ((decoy, None),):
         same = bytes((b ^ 0xff) for b in content)                       # same size, different bytes
         diff = content + b'\x55'                                        # different size
@@ -216,6 +221,11 @@ def incb_cases(tier):
         for where in wheres:
             for cwd in ('src', 'other', 'decoy-same', 'decoy-diff'):
                 cases.append(dict(content=content, where=where, cwd=cwd))
+    # file names with upper-case letters, digits, dots and dashes (the written name must be used as written)
+    for name in ('Logo.DAT', 'FONT-8x8.Bin', 'a.b.c', 'X'):
+        for where in ('beside', 'sub', 'incdir'):
+            for cwd in ('src', 'other', 'decoy-same'):
+                cases.append(dict(content=b'\x11\x22\x33', where=where, cwd=cwd, name=name))
     return cases
 
 
